@@ -87,6 +87,11 @@ func init() {
 		Stubs:  []string{"time.Since/time.Now (clock trace decided by the run seed)", "crypto/rand.Reader (seeded/extreme bytes, short reads, errors so the math/rand fallback runs)", "math/rand package-level draws and sources", "the rand.Source handed to NewStrGenerator (seeded PRNG)"},
 		Rule:   "cases = one of 4 scenarios (IdGenerator under a clock trace and an entropy plan; StrGenerator over a random character set of 1..40 runes of 1-4 bytes; ID numerals and base-32 round trip on random and boundary ids; CountGenerator swept over elapsed times for a random positive rule set) drawn from the run seed, plus one finite table (every byte value at first/middle/last position of valid strings of length 1..13 given to ParseBase32) enumerated exhaustively once per check; non-trivial = an adversarial environment decision actually took place (entropy error/short read/extreme bytes, clock before the start / next to a millisecond boundary / around 2^41 ms, multi-byte or power-of-two character set or more than one source word, boundary ids, equal periods or interval > period); distinct = distinct hash of (params, operations, env seed)",
 		Assume: append([]string{"the ParseBase32 invalid-byte clause is decided by plain exhaustive enumeration of a finite table, not by simulation (DESIGN.md C20)"}, seqAssume...)}
+	props["C18"] = &propCfg{ID: "C18", Engine: "C", Pkgs: "algz", MapRange: true, Level: "exploration", QuickS: 20, ThorS: 480,
+		Real:   []string{"algz/dp.go, algz/graph.go (every statement; range-over-map statements rewritten to iterate a simulator-ordered key list)"},
+		Stubs:  []string{"Go's randomised map iteration order (smap: seeded permutation / ascending / descending per run)"},
+		Rule:   "cases = (item list of <= 10 (thorough 12) items with many equal weights/values, limit 0..sum+2, tie-breaker none/fewer/new, overflow allowed or not) or (undirected graph on <= 9 vertices: random density, disjoint cliques, complete, edgeless, isolated vertices) drawn from the run seed, every map range ordered by the simulator; oracle = brute force over all subsets / vertex sets; non-trivial = at least one map range was ordered by the simulator with a drawn permutation or an extreme order; distinct = distinct hash of (params, operations, env seed) over such runs",
+		Assume: append([]string{"the weakest claim: apart from map order this is generated input against a brute-force oracle (DESIGN.md C18)"}, seqAssume...)}
 	props["C09"] = &propCfg{ID: "C09", Engine: "C", Pkgs: "cryptz", Imports: "crypto/rand=scrand", Level: "fault_enumeration", QuickS: 20, ThorS: 480,
 		Real:   []string{"cryptz/crypt.go, cryptz/aes.go, strz/enc.go (every statement)", "Go standard crypto (aes, cipher, md5) inside golib"},
 		Stubs:  []string{"crypto/rand.Reader (seeded/extreme bytes, short reads, errors)", "io.Reader peer (7 chunking policies, error after k bytes, data together with EOF or error, zero-length reads)", "io.Writer peer (error after k bytes)", "storage/transport medium (bit flips per field, truncation, extension, text substitution, wrong secret/AAD)"},
